@@ -157,7 +157,8 @@ impl<Inner: FangProc> FangProc for CORSProc<Inner> {
             /* override default `Not Implemented` response for valid preflight */
             if res.status == Status::NotImplemented {
                 res.status = Status::OK;
-                h.ContentType(None).ContentLength(None);
+                /* no body: say so, or the client can't tell where this response ends */
+                h.ContentType(None).ContentLength("0");
             }
         }
 
